@@ -441,6 +441,36 @@ def build_mt(w):
 def configure(vf):
     pass
 
+def extra_obligations(w, tier, seed):
+    """remote (shared) compiler pool: RemotePool._compute_compile_preargs waits for the connection-wide state-sync lock.  What it returns must have been computed AFTER the last
+    wait (another request's acknowledgement may have changed what the server believes the worker holds while this one was waiting): AST obligation on the real body --
+    every `await` of anything but the base computation is followed, before the return, by a re-computation `preargs, callback = await super()._compute_compile_preargs(*args)`."""
+    import ast
+    from pyvc import repo
+    out = []
+    fn, _ = repo.find_def(POOL, 'RemotePool._compute_compile_preargs')
+    BASE = 'super()._compute_compile_preargs(*args)'
+    events = []      # source-ordered: ('wait', line) / ('compute', line) / ('return', line)
+    for n in ast.walk(fn):
+        if isinstance(n, ast.Await):
+            events.append((n.lineno, n.col_offset, 'compute' if ast.unparse(n.value) == BASE else 'wait'))
+        if isinstance(n, ast.Return): events.append((n.lineno, n.col_offset, 'return'))
+    events.sort()
+    assigned = [n.lineno for n in ast.walk(fn) if isinstance(n, ast.Assign) and isinstance(n.value, ast.Await) and ast.unparse(n.value.value) == BASE
+                and ast.unparse(n.targets[0]).replace(' ', '') in ('preargs,callback', '(preargs,callback)')]
+    ok = bool(assigned) and any(k == 'return' for _, _, k in events)
+    bad = []
+    for i, (ln, _, k) in enumerate(events):
+        if k == 'wait' and not any(k2 == 'compute' and ln2 in assigned for ln2, _, k2 in events[i + 1:]):
+            bad.append('line %d: awaits something after the last computation of the pre-arguments' % ln)
+    rets = [ast.unparse(n.value) for n in ast.walk(fn) if isinstance(n, ast.Return) and n.value is not None]
+    shape = rets == ['(preargs, callback)']
+    out.append(dict(id='scan/RemotePool/preargs-computed-after-last-wait', kind='shape', tag='property', paths=1,
+                    status='discharged' if (ok and shape and not bad) else ('failed' if bad else 'unknown'), backend='ast-scan', seconds=0.0,
+                    clause='RemotePool._compute_compile_preargs: the (preargs, callback) it returns come from a base computation that no other await follows',
+                    model=None if (ok and shape and not bad) else {'offending_source_location': bad or rets}, where='; '.join(bad) or '%s: events %s' % (POOL, [(l, k) for l, _, k in events]), function='ast-scan'))
+    return out
+
 def scenarios(tier, seed, repo_root, outdir):
     """bounded stand-in: request histories on the real pool/worker code (see scenario.py)"""
     import os, json, subprocess
